@@ -28,7 +28,7 @@ variable {P M : Type} [DecidableEq M]
 negamax value `v` of the position at that depth as a fail-soft alpha-beta result must: `v ≤ α → r ≤ α`,
 `α < v < β → r = v`, `β ≤ v → β ≤ r`; and an exact result comes with a PV whose first move is legal and whose
 child has value `-r`. -/
-theorem pvs_spec {g : Game P M} (hg : GameOK g) {cfg : Cfg} (hpr : Precise cfg) {o : Oracle M}
+theorem pvs_spec {g : Game P M} (hg : GameOK g) {cfg : SOpts} (hpr : Precise cfg) {o : Oracle M}
     (hnc : NoCancel o) (hord : OrderOK o) (n : Nat)
     (p : P) (ply : Nat) (depth : Int) (pv : List M) (α β : Int) (s : Eng M)
     (hs : s.hasTable = false) (hab : α < β) (hl : Live g depth.toNat p) :
@@ -44,7 +44,7 @@ theorem pvs_spec {g : Game P M} (hg : GameOK g) {cfg : Cfg} (hpr : Precise cfg) 
 /-- **zero-window contract** (`zwSearch` with window `(α, α+1)`): the result is on the same side of `α` as the
 true value `v` and is a bound that `v` respects (`v ≤ α → v ≤ r ≤ α`, `α < v → α < r ≤ v`).  The second half is
 what makes the scout result safe to accept as a cutoff in `pvSearch`. -/
-theorem zw_spec {g : Game P M} (hg : GameOK g) {cfg : Cfg} (hpr : Precise cfg) {o : Oracle M}
+theorem zw_spec {g : Game P M} (hg : GameOK g) {cfg : SOpts} (hpr : Precise cfg) {o : Oracle M}
     (hnc : NoCancel o) (hord : OrderOK o) (n : Nat)
     (p : P) (ply : Nat) (depth : Int) (pv : List M) (α : Int) (cut : Bool) (s : Eng M)
     (hs : s.hasTable = false) (hl : Live g depth.toNat p) :
@@ -59,7 +59,7 @@ theorem zw_spec {g : Game P M} (hg : GameOK g) {cfg : Cfg} (hpr : Precise cfg) {
 for a live position and `Cfg.Depth ≥ 1` the call reports a depth `d ∈ 1..Cfg.Depth`, is not marked cancelled,
 its value is `negamax d` of the position, and the first PV move is legal with child value `-v` at depth `d-1`
 (i.e. it attains the value). -/
-theorem analyze_exact {g : Game P M} (hg : GameOK g) (hb : EvalBounded g) {cfg : Cfg} (hpr : Precise cfg)
+theorem analyze_exact {g : Game P M} (hg : GameOK g) (hb : EvalBounded g) {cfg : Cfg} (hpr : Precise cfg.opts)
     {o : Oracle M} (hnc : NoCancel o) (hord : OrderOK o)
     (p : P) (hov : g.over p = false) (hdepth : 1 ≤ cfg.depth)
     (hlive : ∀ d : Nat, 1 ≤ d → (d : Int) ≤ cfg.depth → Live g d p)
@@ -74,7 +74,7 @@ theorem analyze_exact {g : Game P M} (hg : GameOK g) (hb : EvalBounded g) {cfg :
 /-- the hypotheses of the three theorems are satisfiable together: the heap game `Search.Toy.game`, and the
 model really returns a value there (heap of 5, `Depth` 4: the win is found at depth 3, value `WinBase`,
 and the deepening loop stops there) -/
-example : GameOK Toy.game ∧ EvalBounded Toy.game ∧ Precise Toy.cfg ∧ NoCancel (Oracle.quiet : Oracle Nat) ∧
+example : GameOK Toy.game ∧ EvalBounded Toy.game ∧ Precise Toy.cfg.opts ∧ NoCancel (Oracle.quiet : Oracle Nat) ∧
     OrderOK (Oracle.quiet : Oracle Nat) ∧ (∀ d p, Live Toy.game d p) :=
   ⟨Toy.gameOK, Toy.evalBounded, Toy.cfg_precise, Toy.quiet_nc, Toy.quiet_order, Toy.live⟩
 
